@@ -330,18 +330,18 @@ Definition next_locks (s : state) : bool :=
 Definition leak_step (ls : lstate) (e : ev) : option lstate :=
   let s := l_s ls in
   match e with
-  | ED k => match rstep true s e with Some (s', _) => Some (mkL s' (l_locked ls)) | None => None end
+  | ED k => match rstep [AWriteHeader 500] true s e with Some (s', _) => Some (mkL s' (l_locked ls)) | None => None end
   | EH =>
     if l_locked ls && next_locks s then None      (* blocked in tw.mu.Lock() *)
-    else match rstep true s EH with
+    else match rstep [AWriteHeader 500] true s EH with
          | Some (s', RPanic (PBadCode _)) => Some (mkL s' true)   (* the panic left WriteHeader with tw.mu held *)
          | Some (s', _) => Some (mkL s' (l_locked ls))
          | None => None
          end
-  | ES BPanic => match rstep true s e with Some (s', _) => Some (mkL s' (l_locked ls)) | None => None end
+  | ES BPanic => match rstep [AWriteHeader 500] true s e with Some (s', _) => Some (mkL s' (l_locked ls)) | None => None end
   | ES _ =>
     if l_locked ls then None                      (* both writing branches start with tw.mu.Lock() *)
-    else match rstep true s e with Some (s', _) => Some (mkL s' false) | None => None end
+    else match rstep [AWriteHeader 500] true s e with Some (s', _) => Some (mkL s' false) | None => None end
   end.
 
 Definition leak_run (ls : lstate) (sched : list ev) : lstate :=
@@ -364,13 +364,13 @@ Qed.
 
 (* the same schedule on today's model: the timeout reply, at the deadline *)
 Example lock_released_today :
-  let s := rrun true (init false [] [AWriteHeader 0]) [EH; ED KDeadline; ES BTimeout] in
+  let s := rrun [AWriteHeader 500] true (init false [] [AWriteHeader 0]) [EH; ED KDeadline; ES BTimeout] in
   sst s = STimeoutRet KDeadline /\ rw s = timeout_resp false [] KDeadline.
 Proof. vm_compute. split; reflexivity. Qed.
 
 (* without an invalid code the leaking variant is the real thing *)
 Theorem lock_leak_same_without_bad_code : forall s e s' r,
-  rstep true s e = Some (s', r) -> (forall c, r <> RPanic (PBadCode c)) ->
+  rstep [AWriteHeader 500] true s e = Some (s', r) -> (forall c, r <> RPanic (PBadCode c)) ->
   leak_step (mkL s false) e = Some (mkL s' false).
 Proof.
   intros s e s' r H Hr. destruct e as [|k|b]; cbn [leak_step l_s l_locked andb].
